@@ -24,7 +24,7 @@ Check(e) ==
         LET M == Msgs[MsgByName(e.m)]  m == [mand |-> e.mand, opt |-> e.opt] IN
         IF e.panic \/ ~e.ok THEN "encode-fails"
         ELSE IF e.prefix # Pre(e.pre) THEN "buffer-prefix-overwritten"
-        ELSE IF ~MsgEq(m, e.after, M) THEN "message-modified-by-encode"
+        ELSE IF ~MsgEq(m, e.after, M) \/ e.after.hdr # e.hdr0 THEN "message-modified-by-encode"
         ELSE IF e.again # e.tail THEN "encode-not-deterministic"
         ELSE IF e.held # e.again THEN "encode-result-aliases-library-memory"
         ELSE "ok"
